@@ -379,24 +379,28 @@ Definition tk_B_entry (core : tensor F) (Fs : list mat) (mode : nat) (idx : list
   fsum Op (map (fun p => let c := unravel (shape core) p in
                          if Nat.eqb (nth mode c 0) r then nth p (data core) zero [*] tk_kron_entry Fs (Some mode) idx c else zero)
                (seq 0 (prod (shape core)))).
+(* the rows of B, computed once: one per index tuple of the other modes (the full index with idx_mode = 0) *)
+Definition tk_B_rows (core : tensor F) (Fs : list mat) (mode : nat) : list (list nat * vec) :=
+  let sh := map (@length (list F)) Fs in
+  let R := nth mode (shape core) 0 in
+  flat_map (fun p => let idx := unravel sh p in
+                     if Nat.eqb (nth mode idx 0) 0 then [(idx, map (tk_B_entry core Fs mode idx) (seq 0 R))] else [])
+           (seq 0 (prod sh)).
 (* numerator = dot(unfold(tensor, mode), B) *)
 Definition tk_mu_num (T : tensor F) (st : tk_state) (mode : nat) : mat :=
   let '(core, Fs) := st in
-  map (fun i => map (fun r =>
-         fsum Op (map (fun p => let idx := unravel (shape T) p in
-                                if Nat.eqb (nth mode idx 0) i then nth p (data T) zero [*] tk_B_entry core Fs mode idx r else zero)
-                      (seq 0 (prod (shape T)))))
-       (seq 0 (nth mode (shape core) 0))) (seq 0 (nth mode (shape T) 0)).
-(* dot(transpose(B), B): every index tuple of the other modes once (idx_mode = 0) *)
+  let rows := tk_B_rows core Fs mode in
+  map (fun i => fold_left (fun acc ib =>
+                             let t := nth (ravel (shape T) (set_nth mode i (fst ib))) (data T) zero in
+                             map2 (fun a b => a [+] (t [*] b)) acc (snd ib))
+                          rows (repeat zero (nth mode (shape core) 0)))
+      (seq 0 (nth mode (shape T) 0)).
+(* dot(transpose(B), B) *)
 Definition tk_BtB (st : tk_state) (mode : nat) : mat :=
   let '(core, Fs) := st in
-  let sh := map (@length (list F)) Fs in
+  let rows := tk_B_rows core Fs mode in
   let R := nth mode (shape core) 0 in
-  map (fun r => map (fun s =>
-         fsum Op (map (fun p => let idx := unravel sh p in
-                                if Nat.eqb (nth mode idx 0) 0 then tk_B_entry core Fs mode idx r [*] tk_B_entry core Fs mode idx s else zero)
-                      (seq 0 (prod sh))))
-       (seq 0 R)) (seq 0 R).
+  map (fun r => map (fun s => fsum Op (map (fun ib => nth r (snd ib) zero [*] nth s (snd ib) zero) rows)) (seq 0 R)) (seq 0 R).
 (* denominator = dot(nn_factors[mode], dot(transpose(B), B)) *)
 Definition tk_mu_den (st : tk_state) (mode : nat) : mat := matmul (nth mode (snd st) []) (tk_BtB st mode).
 (* core numerator = tucker_to_tensor((tensor, factors), transpose_factors=True) *)
